@@ -69,6 +69,7 @@ func cmdVerify(args []string) {
 	dir := fs.String("dir", "/tmp/govc-smt", "SMT file directory")
 	frame := fs.Bool("fresh", false, "check writes go to fresh memory only")
 	verbose := fs.Bool("v", false, "print proved obligations too")
+	kindinv := fs.Bool("kindinv", false, "assume the IR kind/payload invariant (as the C04/C16 checks do)")
 	fs.Parse(args)
 	t0 := time.Now()
 	eng, err := LoadEngine(*repo, strings.Split(*pkgs, ","), nil)
@@ -76,6 +77,7 @@ func cmdVerify(args []string) {
 		fmt.Fprintln(os.Stderr, "load:", err)
 		os.Exit(2)
 	}
+	eng.assumeKindInv = *kindinv
 	fmt.Printf("loaded in %.1fs, %d functions indexed, %d contracts\n", time.Since(t0).Seconds(), len(eng.fnByKey), len(eng.contracts.Funcs))
 	var keys []string
 	for _, pat := range fs.Args() {
